@@ -398,7 +398,31 @@ def _uncompress_shape(ctx):
     stray = []
     AB, B = pat.A("==", mask, "'AB'"), pat.A("==", mask, "'B'")
     isf = pat.T("Payload.contains(%s,Fiber)" % pa)
-    notf = pat.T("Payload.contains(%s,Fiber)" % pa, False)
+    scen = {"fiber": {AB: True, B: False, isf: True},
+            "leaf": {AB: True, B: False, isf: False},
+            "absent": {AB: False, B: True}}
+
+    def key(a):
+        if a[0] == "!=":
+            return ("==", a[1], a[2]), False
+        if a[0] == "truth":
+            return ("truth", a[1], True), a[2]
+        return a, True
+
+    def runs_in(g, s_):
+        """True / False / None (depends on something else)."""
+        res = True
+        for a in g:
+            k, pol = key(a)
+            if k in s_:
+                if s_[k] != pol:
+                    return False
+            elif k[0] == "==" and mask in k[1:]:
+                if pol:                 # mask == <another literal>
+                    return False
+            else:
+                res = None
+        return res
     for g, st, v in pat.guarded_actions(ctx, f, lp.body):
         if not (isinstance(v, ast.Call) and text(v.func) == out + ".append" and len(v.args) == 1):
             if isinstance(st, ast.Expr) and isinstance(v, ast.Call) and \
@@ -406,16 +430,18 @@ def _uncompress_shape(ctx):
                 stray.append(st)
             continue
         a = v.args[0]
-        core = {x for x in g if not (x[0] == "!=" and mask in x[1:])}
-        if core == {AB, isf}:
-            cases["fiber"] += 1
-        elif core == {AB, notf}:
-            cases["leaf"] += 1
-        elif core == {B}:
-            cases["absent"] += 1
+        hit = False
+        for nm, s_ in scen.items():
+            r_ = runs_in(g, s_)
+            if r_ is None:
+                stray.append(st)
+            elif r_:
+                cases[nm] += 1
+                hit = True
+        if runs_in(g, scen["absent"]):
             fe = a if isinstance(a, ast.Call) and text(a.func).endswith("._fillempty") else None
             lv = fe.args[1] if fe is not None and len(fe.args) > 1 else None
-            if lv is None or text(lv).replace(" ", "") != "%s+1" % level:
+            if lv is None or pat.inline(ctx, f, lv).replace(" ", "") != "%s+1" % level:
                 ctx.bad("C13.R2", f, st, "uncompress fills an absent coordinate "
                         "with `%s`, not with _fillempty(shape, %s + 1): the "
                         "filler belongs to another level, so the nested lists "
@@ -424,7 +450,7 @@ def _uncompress_shape(ctx):
             else:
                 ctx.ok("C13.R2", f, st, "absent coordinates filled for the next level",
                        text_="uncompress filler level")
-        else:
+        if not hit:
             stray.append(st)
     if cases == {"fiber": 1, "leaf": 1, "absent": 1} and not stray:
         ctx.ok("C13.R2", f, lp, "one list entry per coordinate of the shape "
